@@ -119,7 +119,7 @@ def cov_C09(ctx, agg):
     st = agg.stats
     return {"rule": "inversion: random n x n (n<=128) in 10 families (random, duplicate row, linear combination, zero column at any index, proportional columns, scaled permutation, zero diagonal, bounded rank, zero row, sparse); library verdict compared with the reference determinant and in x out with I; generators compared with [I; 1/(i^j)] and [I; 2^((i-k)j)] for all (m,k), m<=48 and selected m up to 256; survivor patterns: EVERY k-subset for all (m,k) up to the listed m (Cauchy, and Vandermonde pairs documented safe) through gf_invert_matrix + ec_init_tables + ec_encode_data; minors of the parity block (size<=4) enumerated completely where listed, sampled otherwise; sampled full pipeline for large (m,k); distinct by hash of matrix / survivor set",
             "inversions": int(st.get("inversions", 0)), "singular_inputs": int(st.get("singular_inputs", 0)), "survivor_patterns": int(st.get("survivor_patterns", 0)),
-            "minors": int(st.get("minors", 0)), "recoveries_via_ec_encode_data": int(st.get("recoveries_via_ec_encode_data", 0)),
+            "minors": int(st.get("minors", 0)), "recoveries_via_ec_encode_data": int(st.get("recoveries_via_ec_encode_data", 0)), "full_inverse_decodes_with_reused_tables": int(st.get("full_inverse_decodes_with_reused_tables", 0)),
             "explanation": "differential oracle against an independent GF(2^8) implementation (determinant by elimination, matrix product)"}
 
 
@@ -138,7 +138,7 @@ def defl_cov(rule, expl):
         c = {"rule": rule, "explanation": expl, "library_calls": int(st.get("library_calls", 0)),
              "cpu_levels_simulated": sorted(agg.sets.get("cpu_levels", [])),
              "streams_with_stored_fallback": int(st.get("stored_fallback_streams", 0)), "multiblock_streams": int(st.get("multiblock_streams", 0)), "inputs_over_64k": int(st.get("inputs_over_64k", 0)),
-             "flush_points_checked": int(st.get("flush_points_checked", 0)), "full_flush_points": int(st.get("full_flush_points", 0)), "full_flush_suffixes_over_1k": int(st.get("full_flush_suffixes_1k", 0)),
+             "flush_points_checked": int(st.get("flush_points_checked", 0)), "full_flush_points": int(st.get("full_flush_points", 0)), "flush_calls_without_input_after_a_completed_flush": int(st.get("flush_calls_without_input_after_a_completed_flush", 0)), "full_flush_suffixes_over_1k": int(st.get("full_flush_suffixes_1k", 0)),
              "state_transitions_observed": dict(sorted(agg.cnts.get("state_transitions", {}).items())),
              "tmp_state_resume_points": dict(sorted(agg.cnts.get("tmp_state_resume_points", {}).items()))}
         if st.get("inflate_dict_calls_refused"):
@@ -207,7 +207,8 @@ def infl_cov(rule, expl):
              "finished_results_checked_against_reference": int(st.get("finished_results_checked_against_reference", 0)),
              "mutants_still_valid_and_accepted": int(st.get("mutants_still_valid_and_accepted", 0)),
              "rejected_by_isal_but_only_the_lenient_reference_accepts": int(st.get("rejected_but_reference_lenient", 0)),
-             "trailer_straddling_histories": int(st.get("trailer_straddling_histories", 0)), "need_dict_flows": int(st.get("need_dict_flows", 0))}
+             "trailer_straddling_histories": int(st.get("trailer_straddling_histories", 0)), "need_dict_flows": int(st.get("need_dict_flows", 0)),
+             "valid_streams_followed_by_foreign_bytes": int(st.get("valid_streams_followed_by_foreign_bytes", 0)), "stateless_retries_on_the_same_struct_after_overflow": int(st.get("stateless_retries_on_the_same_struct_after_overflow", 0))}
         for k in ("systematic_header_flip_streams", "stream_source", "decodes_per_mode", "return_codes", "resume_block_states", "faults_detected", "faults_with_documented_class", "block_type_pairs", "flip_region", "systematic_split_streams"):
             if k in agg.cnts:
                 c[k] = dict(sorted(agg.cnts[k].items()))
@@ -285,7 +286,7 @@ def cov_C18(ctx, agg):
     st = agg.stats
     c = {"rule": "histograms from 13 families (all zero, single symbol, two symbols, uniform, powers of two up to 2^43, Fibonacci weights, counts near 2^44, sparse random, geometric, dense random, multiples of 2^32, deep chains ending in a literal + a length symbol (285 or another) + far distance symbols, collected from data by each isal_update_histogram variant) x default/subset builder; distinct by hash of the histogram; non-trivial = table creation returned 0 and all monitors ran",
          "explanation": "stored header parsed by the independent dynamic-header parser (Kraft completeness, exact bit length); the codes the encoder emits (lit_table, len_table, dist_table/dcodes through the encoder's own lookup helpers) for all 256 literals, all lengths 3..258 and distances of the window decoded by the reference; level-0 one-shot/streaming compression with flushes round-trips through reference and zlib under the CPU levels that select each level-0 kernel; install rules probed in many stream states; table switches at completed flush points; worst-case group workload: per table, data built so that the encoder must emit the literal with the longest code, the length with most code+extra bits and a far distance with most code+extra bits back to back at varying bit phases (the reference decoder reports the largest such group actually present in the produced streams)",
-         "tables_whose_unconstrained_huffman_depth_exceeds_15": int(st.get("tables_needing_length_limiting", 0)), "subset_tables": int(st.get("subset_tables", 0)), "roundtrips": int(st.get("roundtrips", 0)),
+         "histogram_collector_calls_at_page_ends": int(st.get("histogram_collector_calls_at_page_ends", 0)), "tables_whose_unconstrained_huffman_depth_exceeds_15": int(st.get("tables_needing_length_limiting", 0)), "subset_tables": int(st.get("subset_tables", 0)), "roundtrips": int(st.get("roundtrips", 0)),
          "symbols_decoded_through_packed_tables": int(st.get("symbols_decoded", 0)), "set_hufftables_refused": int(st.get("set_hufftables_refused", 0)), "set_hufftables_accepted": int(st.get("set_hufftables_accepted", 0)),
          "cpu_levels_simulated": sorted(agg.sets.get("cpu_levels", [])),
          "worst_case_group_workloads": int(st.get("worst_case_group_workloads", 0)), "largest_literal_length_distance_group_bits_observed_in_a_stream": max([int(k) for k in agg.cnts.get("largest_group_bits_by_engine_process", {})] or [0]),
@@ -306,7 +307,7 @@ def cov_C19(ctx, agg):
     return {"rule": "field combinations from PRNG(seed,index): all 32 optional-field subsets x text/hcrc x time {0,1,0x01020304,~0,random} x xfl/os full byte range x extra length {0,1,255,256,65535,random} x name/comment length {0,1,255,4096,random}; zlib info 0..7, level 0..3, dict on/off, dict_id {0x01020304, random}; writer output sizes {exact, larger, required-1, 0, random smaller}; reader chunkings {all at once, one split at a random point, byte by byte, random chunks} each chunk in its own guard-page mapping released once consumed; undersized extra/name/comment buffers grown on overflow (realloc semantics) or absent; arbitrary inputs: random bytes and multi-bit-flipped / truncated valid headers; distinct by hash of the header bytes and chunking",
             "explanation": "writers compared byte for byte with an independent RFC 1952 writer (zlib: CMF, FLEVEL/FDICT, FCHECK validity, DICTID most-significant-byte-first); too-small output must return the required size and leave stream and output untouched; readers are fed bytes from the independent writer (never ISA-L's own) and must recover every field, stop exactly at the first byte after the header and only return documented status codes",
             "header_writes": int(st.get("header_writes", 0)), "too_small_output_cases": int(st.get("too_small_output_cases", 0)), "reader_calls": int(st.get("reader_calls", 0)), "overflow_resumes": int(st.get("overflow_resumes", 0)),
-            "chunked_reads": int(st.get("chunked_reads", 0)), "arbitrary_inputs": int(st.get("arbitrary_inputs", 0)), "reader_status_codes": dict(sorted(agg.cnts.get("reader_status_codes", {}).items()))}
+            "chunked_reads": int(st.get("chunked_reads", 0)), "arbitrary_inputs": int(st.get("arbitrary_inputs", 0)), "arbitrary_headers_accepted_and_cross_checked_with_the_independent_parser": int(st.get("arbitrary_headers_accepted_and_cross_checked", 0)), "arbitrary_headers_rejected_and_cross_checked": int(st.get("arbitrary_headers_rejected_and_cross_checked", 0)), "header_split_histories_through_isal_inflate": int(st.get("header_split_histories_through_isal_inflate", 0)), "reader_status_codes": dict(sorted(agg.cnts.get("reader_status_codes", {}).items()))}
 
 
 C05_KEYS = ("fault:", "oob-write", "ctxinv", "source-modified", "tables-modified", "ptr-array-modified", "engine-crash", "touches-memory", "negative-vects-dereferenced", "gf_vect_mul_init-overrun", "ec_init_tables-overrun", "generator-overrun")
